@@ -53,6 +53,11 @@ TOLERANCES = {
 
 CHEMS_Q = ['Water', 'Ethanol', 'Methanol', 'Propanol', 'Hexane', 'Benzene', 'Toluene', 'Acetone', 'AceticAcid', 'Glycerol', 'Octanol', 'Tetradecanol']
 CHEMS_T = CHEMS_Q + ['N2', 'CO2', 'Ammonia', 'Butane']
+# thorough: every bundled chemical of DESIGN section 2 with complete Cn(s,l,g)/Tm/Tb/Hvap(Tb)/Hfus data (27 of 28; Glucose's Hvap correlation
+# cannot be evaluated at its Tb and is left out)
+CHEMS_ALL = CHEMS_T + ['1-Butanol', 'Heptane', 'Octane', 'EthylAcetate', 'LacticAcid', 'O2', 'CO', 'H2', 'CH4', 'Propane', 'NaCl']
+TG_FINE = sorted(set([250. + 5. * i for i in range(51)]))          # thorough: 5 K steps, in addition to TG
+PG_T = [1e4, 5e4, 101325., 5e5, 1e6, 1e7]
 TG = [250., 275., 298.15, 310., 340., 370., 400., 450., 500.]
 PG = [1e4, 101325., 1e6]
 ORDER = {'s': 0, 'l': 1, 'g': 2}
@@ -145,14 +150,15 @@ class Pure(System):
     def depth(self, tier): return 1
 
     def configs(self, tier, seed):
-        ids = CHEMS_Q if tier == 'quick' else CHEMS_T
+        self._tier = tier
+        ids = CHEMS_Q if tier == 'quick' else CHEMS_ALL
         if tier == 'quick':            # the seed adds one chemical of the thorough slice
             extra = [c for c in CHEMS_T if c not in CHEMS_Q]
             ids = ids + [extra[seed % len(extra)]]
         cf = [(ID, kind, p) for ID in ids for kind in ('ref', 'lock') for p in 'slg']
         # chemicals AS CONSTRUCTED with a user model passed to the constructor (`Hvap=` constant on a free chemical, `Cn=` constant on a
         # phase-locked one): the functors must be built from the model the chemical ends up with
-        vids = ['Ethanol', 'Hexane'] if tier == 'quick' else ['Ethanol', 'Hexane', 'Water', 'Octanol']
+        vids = ['Ethanol', 'Hexane'] if tier == 'quick' else ['Ethanol', 'Hexane', 'Water', 'Octanol', 'Benzene', 'AceticAcid', 'Butane', 'Glycerol']
         cf += [(ID, 'refHvap', p) for ID in vids for p in 'slg'] + [(ID, 'lockCn', p) for ID in vids for p in 'lg']
         k = seed % len(cf)
         return cf[k:] + cf[:k]
@@ -168,20 +174,32 @@ class Pure(System):
         ID, kind, p = st['config']
         c = chem(ID, (kind, p))
         kind = 'ref' if kind.startswith('ref') else 'lock'
-        Ts = sorted(set(TG + [float(c.Tm), float(c.Tb)]))
+        thorough = getattr(self, '_tier', 'quick') != 'quick'
+        Tm, Tb = float(c.Tm), float(c.Tb)
+        Ts = sorted(set(TG + [Tm, Tb]))
+        Ps = PG
+        pairs = list(zip(Ts[:-1], Ts[1:]))
+        SgP_T = [275., 400., 500.]; SgP_P = [(1e4, 1e6), (101325., 1e4), (101325., 1e6)]
+        if thorough:
+            # finer grid: 5 K steps and points just below / above the transitions (the quick points and pairs stay in the set)
+            near = [t + d for t in (Tm, Tb) for d in (-0.5, -0.01, 0.01, 0.5)]
+            Tf = sorted(set(Ts + TG_FINE + near))
+            pairs = sorted(set(pairs + list(zip(Tf[:-1], Tf[1:]))))
+            Ts = Tf; Ps = PG_T
+            SgP_T = [275., 325., 400., 450., 500.]; SgP_P = SgP_P + [(5e4, 5e5), (1e6, 1e7), (1e7, 1e4)]
         acts = [('ref',)]
         for ph in self._phases(st['config']):
             for T in Ts:
-                for P in PG:
+                for P in Ps:
                     acts.append(('assembly', ph, T, P))
             for T in Ts: acts.append(('dH', ph, T))
-            for Ta, Tb in zip(Ts[:-1], Ts[1:]): acts.append(('dS', ph, Ta, Tb))
+            for Ta, Tb_ in pairs: acts.append(('dS', ph, Ta, Tb_))
         if kind == 'ref' or p == 'g':
-            for T in (275., 400., 500.):
-                for P1, P2 in ((1e4, 1e6), (101325., 1e4), (101325., 1e6)):
+            for T in SgP_T:
+                for P1, P2 in SgP_P:
                     acts.append(('SgP', T, P1, P2))
         if kind == 'ref':
-            for P in PG:
+            for P in Ps:
                 acts.append(('vap', P)); acts.append(('fus', P))
         return acts
 
@@ -196,7 +214,10 @@ class Pure(System):
         m = dict(clause_kind=a[0], mode=kind0, ref=p)
         try:
             obs = self._check(c, mode, a, m)
-        except Violation: raise
+        except (Violation, Rejected): raise
+        except RuntimeError as e:
+            # a third-party correlation refuses to evaluate at this point (extrapolation failure / invalid value): outside the compared domain
+            raise Rejected('third-party correlation refuses to evaluate', cut=True)
         except UNDOC as e:
             raise Violation('unexpected-exception', f'{ID} ({kind} {p}) {a!r}: {type(e).__name__}: {e}',
                             match=dict(exc=type(e).__name__, quantity=_which_quantity(c, mode, a), crosses_melting=_crosses_melting(mode, a)),
@@ -241,10 +262,13 @@ class Pure(System):
             D1 = (f(T + h) - f(T - h)) / (2 * h); D2 = (f(T + h / 2) - f(T - h / 2)) / h
             D = (4 * D2 - D1) / 3.
             Cn = call(c.Cn, mode, ph, T)
-            g = lambda t: cn.T_dependent_property_integral(T - 1., t)
-            Dp = (4 * (g(T + h / 2) - g(T - h / 2)) / h - (g(T + h) - g(T - h)) / (2 * h)) / 3.
-            if abs(Dp - cn(T)) > 2e-6 * abs(cn(T)):
-                raise Rejected('third-party heat-capacity correlation: antiderivative inconsistent with its value at this T', cut=True)
+            # the trusted primitive must itself be differentiable to its value, from a nearby base point AND from the base points the
+            # library integrates from (tabular correlations integrate inconsistently across the edge of their table)
+            for base in (T - 1., c.T_ref, float(c.Tm), float(c.Tb)):
+                g = lambda t: cn.T_dependent_property_integral(base, t)
+                Dp = (4 * (g(T + h / 2) - g(T - h / 2)) / h - (g(T + h) - g(T - h)) / (2 * h)) / 3.
+                if abs(Dp - cn(T)) > 2e-6 * abs(cn(T)):
+                    raise Rejected('third-party heat-capacity correlation: antiderivative inconsistent with its value at this T', cut=True)
             if abs(D1 - D2) > 1e-4 * abs(Cn):
                 raise Rejected('H not smooth at the grid point (piecewise correlation)', cut=True)
             if not (abs(D - Cn) <= 1e-5 * abs(Cn)):
@@ -329,7 +353,8 @@ def _which_quantity(c, mode, a):
 
 # =========================================================================================================================================
 TUPLES_Q = [('Water', 'Ethanol'), ('Water', 'Ethanol', 'Methanol'), ('Hexane', 'Benzene', 'Toluene', 'Acetone')]
-TUPLES_T = TUPLES_Q + [('Ethanol', 'Water'), ('Methanol', 'Propanol', 'AceticAcid'), ('Water', 'Glycerol', 'Octanol', 'Ethanol')]
+TUPLES_T = TUPLES_Q + [('Ethanol', 'Water'), ('Methanol', 'Propanol', 'AceticAcid'), ('Water', 'Glycerol', 'Octanol', 'Ethanol'),
+                       ('Water', 'Ethanol', 'Methanol', 'Propanol', 'AceticAcid'), ('N2', 'CO2', 'Butane', 'Ammonia', 'Hexane')]
 
 def simplex(n, steps=4):
     out = []
@@ -344,9 +369,10 @@ class Mixture(System):
     def reset_globals(self): fx.reset_globals()
 
     def configs(self, tier, seed):
+        self._tier = tier
         tups = TUPLES_Q if tier == 'quick' else TUPLES_T
         Ts = [275., 340., 450.] if tier == 'quick' else [250., 275., 298.15, 340., 400., 450., 500.]
-        Ps = [101325., 1e6] if tier == 'quick' else PG
+        Ps = [101325., 1e6] if tier == 'quick' else [1e4, 101325., 1e6, 1e7]
         cf = [(t, ph, T, P) for t in tups for ph in ('l', 'g') for T in Ts for P in Ps]
         k = seed % len(cf)
         return cf[k:] + cf[:k]
@@ -356,7 +382,8 @@ class Mixture(System):
     def actions(self, st):
         if st['last'] is not None: return []
         n = len(st['config'][0])
-        return [(cl, x, k) for cl in ('HC', 'S') for x in simplex(n) for k in (1., 0.5, 3., 1000.)]
+        steps = 4 if getattr(self, '_tier', 'quick') == 'quick' else 8       # thorough: simplex grid of step 1/8 (contains the step-1/4 grid)
+        return [(cl, x, k) for cl in ('HC', 'S') for x in simplex(n, steps) for k in (1., 0.5, 3., 1000.)]
 
     def step(self, st, a):
         IDs, ph, T, P = st['config']
@@ -417,7 +444,11 @@ class Mixing(System):
 
     def warm(self): fx.tmo()
     def reset_globals(self): fx.reset_globals()
-    def depth(self, tier): return 2 if tier == 'quick' else 3
+    # thorough: depth 3 for every configuration (universe grows from 4 to at most 7 streams) and depth 4 (8 streams) for the binary
+    # Water/Ethanol at two conditions -- expressed as one system of depth 4 whose other configurations stop producing actions at 7 streams
+    DEEP = {('l', 340., 1e6), ('g', 400., 101325.)}
+    def depth(self, tier): return 2 if tier == 'quick' else 4
+    def time_cap(self, tier): return None if tier == 'quick' else 900
 
     def configs(self, tier, seed):
         tups = [('Water', 'Ethanol'), ('Water', 'Ethanol', 'Methanol')]
@@ -441,7 +472,9 @@ class Mixing(System):
 
     def actions(self, st):
         n = len(st['s'])
-        if n >= 7: return []
+        IDs, ph, T, P = st['config'][:4]
+        cap = 8 if (len(IDs) == 2 and (ph, T, P) in self.DEEP) else 7
+        if n >= cap: return []
         return [('mix', i, j) for i in range(n) for j in range(i, n)]
 
     def step(self, st, a):
@@ -502,10 +535,11 @@ class Setters(System):
     DONOR = 'Propanol'
 
     def warm(self): fx.tmo()
-    def depth(self, tier): return 3 if tier == 'quick' else 4
+    def depth(self, tier): return 3 if tier == 'quick' else 5
     def time_cap(self, tier): return 200 if tier == 'quick' else 900
 
     def configs(self, tier, seed):
+        self._tier = tier
         ids = ['Water', 'Ethanol', 'Hexane', 'AceticAcid'] if tier == 'quick' else ['Water', 'Ethanol', 'Hexane', 'AceticAcid', 'Benzene', 'Glycerol', 'Octanol', 'Butane']
         cf = [(ID, p) for ID in ids for p in 'slg']
         # chemicals built with a user model given to the constructor (`Hvap=` on a free chemical, `Cn=` on a phase-locked one)
@@ -544,12 +578,15 @@ class Setters(System):
         md = self._mode(c)
         try: models = (fx.r12(c.Hvap(c.Tb)), fx.r12(call(c.Cn, md, 'l', 300.)), fx.r12(call(c.Cn, md, 'g', 400.)))
         except Exception as e: models = type(e).__name__
-        return (tuple(st['config']), md, fx.r12(c.Tm), fx.r12(c.Tb), fx.r12(c.Hfus), None if c.Sfus is None else fx.r12(c.Sfus), fx.r12(c.S0),
+        return (tuple(st['config']), md, fx.r12(c.Tc or 0.), fx.r12(c.Pc or 0.), fx.r12(c.omega or 0.), fx.r12(c.Tm), fx.r12(c.Tb), fx.r12(c.Hfus), None if c.Sfus is None else fx.r12(c.Sfus), fx.r12(c.S0),
                 models, fdata(c._H), fdata(c._S))
 
     def actions(self, st):
         c = st['c']
         acts = [('Tb', 4.), ('Tb', -3.), ('Tm', 2.), ('Hfus', 1.125), ('S0', 5.), ('copy',), ('reset',)]
+        if getattr(self, '_tier', 'quick') != 'quick':
+            # thorough: the critical constants, which the Hvap / Cn correlations may read
+            acts += [('Tc', 5.), ('Pc', 1.0625), ('omega', 0.015625)]
         if not c.locked_state:
             acts += [('phase_ref', q) for q in 'slg' if q != c.phase_ref]
             acts += [('copy_models', nm) for nm in (('Cn',), ('Hvap',), ('Cn', 'Hvap'))]
@@ -564,6 +601,9 @@ class Setters(System):
             elif op == 'Tm': c.Tm = c.Tm + a[1]
             elif op == 'Hfus': c.Hfus = c.Hfus * a[1]
             elif op == 'S0': c.S0 = c.S0 + a[1]
+            elif op == 'Tc': c.Tc = c.Tc + a[1]
+            elif op == 'Pc': c.Pc = c.Pc * a[1]
+            elif op == 'omega': c.omega = c.omega + a[1]
             elif op == 'phase_ref': c.phase_ref = a[1]
             elif op == 'copy': st['c'] = c.copy(c.ID + 'c')
             elif op == 'reset': c.reset_free_energies()
